@@ -39,6 +39,7 @@ func GenChainScenario(t *rapid.T, cc ChainConfig) Scenario {
 	var deps []Requirement
 	used := map[string]bool{}
 	family := "chain"
+	var firsts []string
 	for ti, top := range tops {
 		n := rapid.IntRange(3, 6).Draw(t, "chain_versions")
 		step := steps[0]
@@ -69,6 +70,13 @@ func GenChainScenario(t *rapid.T, cc ChainConfig) Scenario {
 			case k == 1:
 				// the two tops start from different libraries, so there are two initial vulnerabilities
 				first = libs[(ti*2+rapid.IntRange(0, 1).Draw(t, "lib1"))%len(libs)]
+				if ti > 0 && rapid.IntRange(0, 9).Draw(t, "shared_start") < 3 {
+					// both chains start from one library: one advisory constrained by two
+					// direct requirements
+					first = firsts[0]
+					family += "_shared_start"
+				}
+				firsts = append(firsts, first)
 				set = []string{first}
 			case k == n:
 				// the last version is clean
@@ -135,6 +143,13 @@ func GenChainScenario(t *rapid.T, cc ChainConfig) Scenario {
 	if cc.Levels {
 		if ix, err := s.Universe.Index(); err == nil {
 			s.Levels = GenLevels(t, ix)
+		}
+		if x := rapid.IntRange(0, 9).Draw(t, "top_level"); x < 4 {
+			// one of the direct dependencies gets a level of its own (mostly: not upgradable)
+			if s.Levels.Packages == nil {
+				s.Levels.Packages = map[string]string{}
+			}
+			s.Levels.Packages[tops[x%len(tops)]] = genLevel(t, "top_level.level", [4]int{0, 20, 20, 60})
 		}
 	}
 	return s
